@@ -5,6 +5,7 @@ package main
 // schedule point while canary runs go on among the survivors.
 
 import (
+	"context"
 	"encoding/json"
 	"fmt"
 	"math/rand"
@@ -502,12 +503,13 @@ func runEntry(in input) lib.Case {
 	returned := true
 	select {
 	case <-done:
-	case <-time.After(60 * time.Second):
+	case <-time.After(15 * time.Second):
 		returned = false
 	}
 	if !returned {
+		entryCluster = nil // wedged: abandon it instead of waiting for its CloseAll
 		return lib.Case{Coq: "CCluster 1 1 false true true true", Class: "entry:" + in.Entry + "-blocked", Nontrivial: true,
-			Obs: "the entry point did not return within 60 s"}
+			Obs: "the entry point did not return within 15 s"}
 	}
 	// every live destination that can still get the message gets it
 	upDests := 0
@@ -649,7 +651,7 @@ type clusterOut struct {
 	Note         string `json:"note,omitempty"`
 }
 
-var clusterMoments = []string{"before", "treemiss", "instance", "announce", "childannounce", "reply"}
+var clusterMoments = []string{"before", "treemiss", "instance", "announce", "childannounce", "reply", "treereq", "treereqlost"}
 
 func genCluster(rng *rand.Rand, tier string) []interface{} {
 	n := 4
@@ -661,7 +663,7 @@ func genCluster(rng *rand.Rand, tier string) []interface{} {
 		servers := 5 + rng.Intn(3)
 		in := input{Kind: "cluster", TCP: i%3 != 2, Servers: servers, BF: 2, Moment: clusterMoments[rng.Intn(len(clusterMoments))]}
 		// inner nodes of the binary tree are 1 and 2 (children 3,4 / 5,6); leaves from 3
-		if in.Moment == "childannounce" {
+		if in.Moment == "childannounce" || in.Moment == "treereq" || in.Moment == "treereqlost" {
 			in.Victim = 1
 		} else {
 			in.Victim = 1 + rng.Intn(servers-1)
@@ -678,6 +680,12 @@ func corpusCluster() []interface{} {
 		input{Kind: "cluster", TCP: false, Servers: 5, BF: 2, Victim: 1, Moment: "treemiss"},
 		input{Kind: "cluster", TCP: true, Servers: 6, BF: 2, Victim: 3, Moment: "instance"},
 		input{Kind: "cluster", TCP: true, Servers: 5, BF: 2, Victim: 2, Moment: "reply"},
+		// the peer dies between its first message on a tree the survivor does not know and the
+		// survivor's tree request; after its restart it runs a protocol on the same tree
+		input{Kind: "cluster", TCP: false, Servers: 4, BF: 3, Victim: 1, Moment: "treereq"},
+		input{Kind: "cluster", TCP: true, Servers: 4, BF: 3, Victim: 1, Moment: "treereq"},
+		// ... and the variant in which the request does go out, but to an incarnation that cannot answer it
+		input{Kind: "cluster", TCP: true, Servers: 4, BF: 3, Victim: 1, Moment: "treereqlost"},
 	}
 	registerPending(ins)
 	return ins
@@ -695,10 +703,18 @@ func registerPending(ins []interface{}) {
 	}
 }
 
+// a cluster scenario gets 150 s; one that is still running then is blocked, which is an observation
+const childDeadline = 150 * time.Second
+
 func runChild(raw []byte) []byte {
-	cmd := exec.Command(os.Args[0], "-c09child", string(raw))
+	ctx, cancel := context.WithTimeout(context.Background(), childDeadline)
+	defer cancel()
+	cmd := exec.CommandContext(ctx, os.Args[0], "-c09child", string(raw))
 	cmd.Stderr = nil
 	out, err := cmd.Output()
+	if ctx.Err() != nil {
+		return []byte(`{"blocked":true}`)
+	}
 	if err != nil {
 		return []byte(fmt.Sprintf(`{"crashed":true,"exit":%q}`, err.Error()))
 	}
@@ -737,7 +753,11 @@ func runClusterParent(in input, raw json.RawMessage) lib.Case {
 	alive := true
 	var out clusterOut
 	// the child prints one JSON line at the end; anything else means it died
-	if err := json.Unmarshal(lastLine(res), &probe); err != nil || probe["crashed"] == true {
+	blocked := false
+	if err := json.Unmarshal(lastLine(res), &probe); err == nil && probe["blocked"] == true {
+		blocked = true
+		out.Reached = true
+	} else if err != nil || probe["crashed"] == true {
 		alive = false
 	} else {
 		json.Unmarshal(lastLine(res), &out)
@@ -750,12 +770,18 @@ func runClusterParent(in input, raw json.RawMessage) lib.Case {
 		tr = "tcp"
 	}
 	cl := fmt.Sprintf("cluster-%s:%s", tr, in.Moment)
+	if blocked {
+		cl += "+blocked"
+	}
 	if len(out.Zombie) > 0 {
 		cl += "+abandoned"
 	}
 	coq := fmt.Sprintf("CCluster %d %d %s %s %s %s", out.Canaries, out.CanariesDone, lib.Bool(out.Returned), lib.Bool(alive),
 		lib.Bool(out.Told), lib.Bool(out.AfterRestart))
 	var obs interface{} = out
+	if blocked {
+		obs = map[string]interface{}{"scenario_did_not_finish_within_s": int(childDeadline / time.Second)}
+	}
 	if !alive {
 		s := string(res)
 		if len(s) > 1500 {
@@ -847,7 +873,7 @@ func clusterScenario(in input) clusterOut {
 	}
 	canary := func(run int) {
 		out.Canaries++
-		if startRun(c, canTree, run) && waitRun(run, n-1, 20*time.Second) {
+		if startRun(c, canTree, run) && waitRun(run, n-1, 12*time.Second) {
 			out.CanariesDone++
 		}
 	}
@@ -855,7 +881,7 @@ func clusterScenario(in input) clusterOut {
 	canary(1)
 	if in.Moment != "treemiss" { // there the victim must not know the tree yet
 		out.Canaries++
-		if startRun(c, c.tree, 2) && waitRun(2, n, 20*time.Second) {
+		if startRun(c, c.tree, 2) && waitRun(2, n, 12*time.Second) {
 			out.CanariesDone++
 		}
 	}
@@ -864,6 +890,8 @@ func clusterScenario(in input) clusterOut {
 	hit := make(chan struct{}, 1)
 	hold := make(chan struct{})
 	var gate *lib.Gate
+	failTree := c.tree
+	treeReq := in.Moment == "treereq" || in.Moment == "treereqlost"
 	vov := victim.VerifOverlay()
 	switch in.Moment {
 	case "before":
@@ -872,6 +900,14 @@ func clusterScenario(in input) clusterOut {
 		gate = sched.Block(point, 1, func(args []interface{}) bool {
 			o, ok := args[0].(*onet.Overlay)
 			return ok && o == vov
+		})
+	case "treereq", "treereqlost":
+		// the failing run is rooted at the victim; a survivor that does not know the tree is held
+		// after it marked the tree as requested and before the request goes out
+		failTree = c.roster.GenerateNaryTreeWithRoot(in.BF, victim.ServerIdentity)
+		gate = sched.Block("overlay.registered", 1, func(args []interface{}) bool {
+			o, ok := args[0].(*onet.Overlay)
+			return ok && o != vov
 		})
 	case "announce", "reply":
 		reg.Lock()
@@ -900,7 +936,7 @@ func clusterScenario(in input) clusterOut {
 		reg.Unlock()
 	}
 	if in.Moment != "before" {
-		if !startRun(c, c.tree, 3) {
+		if !startRun(c, failTree, 3) {
 			return out
 		}
 		reached := false
@@ -934,12 +970,31 @@ func clusterScenario(in input) clusterOut {
 	go func() { victim.Close(); close(closed) }()
 	waitUntil(func() bool { return sched.Count("router.closedSet") > before }, 5*time.Second)
 	close(hold)
-	if gate != nil {
+	if gate != nil && !treeReq {
 		gate.Release()
 	}
 	select {
 	case <-closed:
 	case <-time.After(15 * time.Second):
+	}
+	var heldOv *onet.Overlay
+	if treeReq {
+		for _, e := range sched.Trace() {
+			if e.Point == "overlay.registered" && len(e.Args) > 0 {
+				if o, ok := e.Args[0].(*onet.Overlay); ok && o != vov {
+					heldOv = o
+					break
+				}
+			}
+		}
+	}
+	if gate != nil && in.Moment == "treereq" {
+		// the survivor's request goes out only now: nothing listens at the victim any more;
+		// wait until that send has failed (the tree is no longer marked as requested)
+		gate.Release()
+		if heldOv != nil {
+			waitUntil(func() bool { return heldOv.VerifTreeState(failTree.ID) != 1 }, 4*time.Second)
+		}
 	}
 	c.up[v] = false
 	if in.Moment == "before" {
@@ -950,11 +1005,16 @@ func clusterScenario(in input) clusterOut {
 	waitUntil(func() bool { _, ok := runCount(3); return ok }, 1500*time.Millisecond)
 	out.FailedRun, _ = runCount(3)
 	// 3. survivors that had a connection to the victim are told
+	heldIdx := -1
+	if in.Moment == "treereqlost" && heldOv != nil {
+		// that survivor's receive loop is the goroutine this scenario still holds: it cannot notice yet
+		heldIdx = reg.index(heldOv.ServerIdentity())
+	}
 	out.Told = waitUntil(func() bool {
 		toldMu.Lock()
 		defer toldMu.Unlock()
 		for _, i := range out.HadConn {
-			if !told[i] {
+			if !told[i] && i != heldIdx {
 				return false
 			}
 		}
@@ -990,11 +1050,25 @@ func clusterScenario(in input) clusterOut {
 		reg.deliver(env.Msg.(*RawMsg).ID, i)
 		return nil
 	})
+	if in.Moment == "treereqlost" {
+		// the held request goes out now, to the new incarnation, which has never heard of the tree
+		before := 0
+		if heldOv != nil {
+			before = len(heldOv.VerifPending())
+		}
+		gate.Release()
+		time.Sleep(300 * time.Millisecond)
+		_ = before
+	}
 	fresh := c.roster.GenerateNaryTreeWithRoot(in.BF, c.servers[0].ServerIdentity)
-	out.AfterRestart = startRun(c, fresh, 5) && waitRun(5, n, 20*time.Second)
+	if treeReq {
+		// the same tree (same id) as the run that failed, rooted at the restarted peer
+		fresh = c.roster.GenerateNaryTreeWithRoot(in.BF, nv.ServerIdentity)
+	}
+	out.AfterRestart = startRun(c, fresh, 5) && waitRun(5, n, 12*time.Second)
 	if !out.AfterRestart {
 		// one more try: the first run after a restart may meet a connection whose death was not yet noticed (TCP)
-		out.AfterRestart = startRun(c, fresh, 6) && waitRun(6, n, 20*time.Second)
+		out.AfterRestart = startRun(c, fresh, 6) && waitRun(6, n, 12*time.Second)
 	}
 	canary(7)
 	return out
